@@ -308,7 +308,7 @@ class OnlineVariance(object):
                     squares = cnt*(average - avg)**2
                 else:
                     squares += cnt*(average - avg)**2
-            if var is not np.nan:
+            if not (np.isscalar(var) and test_nan(var)):
                 squares += cnt*var 
         # squares = counts*variances
         # squares += counts*(average - averages)**2
